@@ -106,6 +106,33 @@ Theorem stored_lag_exact :
 Proof. exact StorageProofs.stored_lag_exact. Qed.
 Print Assumptions stored_lag_exact.
 
+(* the same, for a fetch made at any point of a longer history ("at every point a detail or status query can be made"):
+   the reply at position [length h1] is judged against the history BEFORE that fetch, h1 *)
+Theorem stored_lag_exact_anywhere :
+  forall cf cls h1 now c g h2 st reps l t cps i cp e,
+  (1 <= cf_intervals cf)%nat -> wf_hist (h1 ++ (now, FetchConsumer c g) :: h2) ->
+  run cf (init_state cls) (h1 ++ (now, FetchConsumer c g) :: h2) = Some (st, reps) ->
+  nth_error reps (length h1) = Some (RConsumer l) ->
+  In (t, cps) l -> nth_error cps i = Some cp -> In (Some e) (cp_offsets cp) ->
+  co_lag e = None \/
+  exists h0 now' ts rest b,
+    h1 = h0 ++ (now', SetConsumerOffset c g t (Z.of_nat i) (co_offset e) (co_order e) ts) :: rest /\
+    last_broker h0 c t (Z.of_nat i) = Some b /\ co_lag e = Some (Z.max 0 (b - co_offset e)) /\
+    0 <= Z.max 0 (b - co_offset e) < two64.
+Proof. exact StorageProofs.stored_lag_exact_anywhere. Qed.
+Print Assumptions stored_lag_exact_anywhere.
+
+(* "The most recent commit in the offsets log".  current_lag_exact speaks about the commit k in the NEWEST SLOT of the
+   reported window.  That this slot holds the commit latest in the log is property C02, proved in props/C02.v:
+   C02_storage_reply_windows / C02_storage_windows_wf say that every reported window is the read-out of
+   Ring.ring_run over exactly the commits of this history that reached the partition since it was last removed
+   (arrivals, equivalently the state-free h_arrivals: C02_storage_arrivals_from_history), and C02_window_newest_last says
+   that the last entry of that read-out is a commit whose log position is the greatest of all those arrivals.  props/C01.v
+   does not depend on RingProofs.v, so the composition is not restated here; it is carried out in the composed layer:
+   PIPE_e2e_lag_exact (props/PIPE.v; PipelineProofs.lag_exact uses RingProofs.run_newest_last on
+   StorageWindows.storage_reply_windows) states that the k of CurrentLag = max 0 (b - k.offset) is a live commit of the
+   group / topic / partition and that no live commit has a higher log position. *)
+
 (* ---- non-vacuity ---- *)
 (* consumer ahead of the broker (broker 50, commit 60): both lags are 0 *)
 Example ex_consumer_ahead :
